@@ -24,8 +24,8 @@ WIDEN = {("u8", "usize"), ("u8", "u32"), ("u8", "u64"), ("u8", "u16"), ("u32", "
          ("u8", "u128"), ("u64", "u128"), ("usize", "u128"), ("u32", "u128")}
 
 VIEW_FNS = re.compile(
-    r"^<(&?seq::Seq<A>|seq::array::SeqArray<A, N, W>|kmer::Kmer<A, K>|&?seq::slice::SeqSlice<A>|&seq::Seq<A>) as "
-    r"(std::ops::Deref|std::convert::AsRef<seq::slice::SeqSlice<A>>|std::borrow::Borrow<seq::slice::SeqSlice<A>>)>::"
+    r"^<(&?seq::Seq<[^<>]*>|&?seq::array::SeqArray<[^<>]*>|&?kmer::Kmer<[^<>]*>|&?seq::slice::SeqSlice<[^<>]*>) as "
+    r"(std::ops::Deref|std::convert::AsRef<seq::slice::SeqSlice<[^<>]*>>|std::borrow::Borrow<seq::slice::SeqSlice<[^<>]*>>)>::"
     r"(deref|as_ref|borrow)$")
 
 BITVEC_INDEX = re.compile(
@@ -34,6 +34,7 @@ SEQ_INDEX = re.compile(
     r"^seq::index::<impl std::ops::Index<(std::ops::(Range|RangeTo|RangeFrom|RangeFull|RangeInclusive|RangeToInclusive)(<usize>)?|usize)> for seq::slice::SeqSlice<A>>::index$")
 BITLEN = re.compile(r"^bitvec::(slice|vec)::api::<impl bitvec::(slice::BitSlice|vec::BitVec)(<[^>]*>)?>::len$")
 BV_DEREF = re.compile(r"^bitvec::vec::ops::<impl std::ops::Deref(Mut)? for bitvec::vec::BitVec(<[^>]*>)?>::deref(_mut)?$")
+BAN_ASREF = re.compile(r"^<<S as kmer::sealed::KmerStorage>::BaN as std::convert::As(Mut|Ref)<bitvec::slice::BitSlice>>::as_(mut|ref)$")
 BA_ASREF = re.compile(r"^bitvec::array::traits::<impl std::convert::As(Ref|Mut)<bitvec::slice::BitSlice(<[^>]*>)?> for bitvec::array::BitArray<[^>]*>>::as_(ref|mut)$|^<bitvec::array::BitArray<.*> as std::convert::As(Ref|Mut)<bitvec::slice::BitSlice>>::as_(ref|mut)$")
 
 
@@ -67,6 +68,8 @@ def range_bounds(r):
 
 
 class Norm:
+    eng = None   # set by an.analyse: engine used to resolve generic associated consts
+
     def __init__(self, env=None):
         self.cache = {}
         self.env = env or {}
@@ -91,6 +94,20 @@ class Norm:
             return n(t[2])
         if k == "deref":
             return n(t[1])
+        if k == "val":
+            return n(t[1])
+        if k == "lfield":
+            b = n(t[1])
+            ft = ("field", b, t[2], t[3], t[4] if len(t) > 4 else None)
+            if is_bits_field(ft):
+                return ("bits", b[1] if b[0] == "seqview" else b)
+            if b[0] == "agg" and t[2] < len(b[4]):
+                return b[4][t[2]]
+            if b[0] == "tuple" and t[2] < len(b[1]):
+                return b[1][t[2]]
+            return ("F", b, t[3] if t[3] is not None else t[2])
+        if k == "ldowncast":
+            return ("downcast", n(t[1]), t[2], t[3])
         if k == "local":
             v = self.env.get(t[1])
             if v is not None and not (isinstance(v, tuple) and v[0] in ("post", "loopvar", "uninit", "local")):
@@ -103,7 +120,7 @@ class Norm:
         if k == "loopvar":
             return ("loopvar", t[1], t[2])
         if k == "ac":
-            return t
+            return self._assoc_const(t)
         if k == "cast":
             a = n(t[2])
             ck, fr, to = t[1], t[3], t[4]
@@ -155,7 +172,7 @@ class Norm:
         if k == "call":
             key = t[1]
             args = tuple(n(a) for a in t[2])
-            if BV_DEREF.match(key) or BA_ASREF.match(key):
+            if BV_DEREF.match(key) or BA_ASREF.match(key) or BAN_ASREF.match(key):
                 return args[0]
             if BITLEN.match(key):
                 return ("bitlen", args[0])
@@ -191,13 +208,39 @@ class Norm:
                     return ("sslice", x, canon(lo), canon(hi) if hi is not None else None)
             if VIEW_FNS.match(key):
                 x = args[0]
-                if "SeqSlice<A> as" in key:
+                if re.match(r"^<&?seq::slice::SeqSlice<", key):
                     return x
                 if x[0] == "seqview":
                     return x
                 return ("seqview", x)
             return ("call", key, args) + tuple(t[3:])
         return t
+
+
+    _ac_cache = {}
+
+    def _assoc_const(self, t):
+        """a generic associated const defined in the crate (e.g. Kmer::BITS = K * A::BITS) is replaced by its body"""
+        eng = Norm.eng
+        if eng is None:
+            return t
+        key = (id(eng), t[1])
+        if key in Norm._ac_cache:
+            return Norm._ac_cache[key]
+        r = t
+        bs = eng.by_path.get(t[1])
+        if bs and bs[0]["kind"].startswith("AssocConst"):
+            import terms
+            try:
+                outs = terms.Analysis(eng, terms.Policy()).run(bs[0], [])
+                rets = [o for o in outs if o.end == "return"]
+                if len(rets) == 1 and not rets[0].guards:
+                    Norm._ac_cache[key] = t
+                    r = Norm(env=None).norm(rets[0].ret)
+            except Exception:
+                r = t
+        Norm._ac_cache[key] = r
+        return r
 
 
 # ---------- polynomials ----------
